@@ -65,6 +65,12 @@ def shard_events(b):
         if is_call(recv, "Index::index"):
             idx = peel(recv[2][1])
             recv = peel(recv[2][0])
+        elif isinstance(recv, tuple) and len(recv) == 3 and recv[0] == "field" and str(recv[2]) == "0" and isinstance(recv[1], tuple) and recv[1][0] == "downcast" and recv[1][2] == "Some" \
+                and is_call(peel(recv[1][1], transparent=[]), ["slice::get", "Vec::get"]):
+            # `if let Some(cell) = shard.buckets.get(i) { cell.inc_by(..) }`
+            g_ = peel(recv[1][1], transparent=[])
+            idx = peel(g_[2][1])
+            recv = peel(g_[2][0], transparent=["Deref::deref"])
         else:
             # a bucket cell reached as the element of an iteration over `shard.buckets` (walked in lock step with other sequences by zip)
             es = elem_src(peel(recv))
